@@ -24,7 +24,10 @@ def RFacts.ok (F : RFacts) : Bool :=
   F.lc.redirectReleaseBeforePut && F.lc.ctxReleaseReturnsRedirect && F.lc.flashDecodeWipes &&
   -- structural facts the model takes for granted: pooled objects only leave / enter the pools through
   -- Acquire* / Release*; the route-parameter slots are written before they are read (Values.lean)
-  F.lc.poolOpsConfined && F.lc.starWritesSlot0 && F.lc.getMatchWritesBeforeRead && F.lc.paramsReadsRouteSlots
+  F.lc.poolOpsConfined && F.lc.starWritesSlot0 && F.lc.getMatchWritesBeforeRead && F.lc.paramsReadsRouteSlots &&
+  -- App.sendfiles is a transparent memo table (SendFile.lean): compareConfig compares every field of the
+  -- SendFile struct and an entry is keyed by the configuration it was built from
+  F.sfAllCompared && F.sfMask.complete && F.lc.sendFileStoresOwnConfig
 
 /-! ### clean pooled objects -/
 
@@ -214,6 +217,7 @@ theorem act_sim (rq : Req) (params : List Bytes) (fv : List Msg) (p p' : Nat) (s
   | bq => exact ⟨by simp [act, Live.core, *], hp, hp'⟩
   | bu => exact ⟨by simp [act, Live.core, *], hp, hp'⟩
   | er n => exact ⟨by simp [act, Live.core, *], hp, hp'⟩
+  | sf cfg hdr => exact ⟨by simp [act, Live.core, *], hp, hp'⟩
   | sh k v =>
     by_cases h1 : k = b "X-A"
     · exact ⟨by simp [act, h1, Live.core, *], by simpa [act, h1] using hp, by simpa [act, h1] using hp'⟩
@@ -317,7 +321,7 @@ theorem ok_fields {F : RFacts} (h : F.ok = true) :
     (F.lc.acquireResets = true ∧ F.lc.releaseBeforePut = true ∧ F.lc.handlerDefersRelease = true ∧
      F.lc.redirectReleaseBeforePut = true ∧ F.lc.ctxReleaseReturnsRedirect = true ∧ F.lc.flashDecodeWipes = true) := by
   simp only [RFacts.ok, Bool.and_eq_true] at h
-  obtain ⟨⟨⟨⟨⟨⟨⟨⟨⟨⟨⟨⟨⟨⟨⟨⟨⟨⟨⟨⟨⟨⟨⟨⟨⟨⟨a1, a2⟩, a3⟩, a4⟩, a5⟩, a6⟩, a7⟩, a8⟩, a9⟩, a10⟩, b1⟩, b2⟩, b3⟩, b4⟩, b5⟩, c1⟩, c2⟩, d1⟩, d2⟩, d3⟩, d4⟩, d5⟩, d6⟩, _⟩, _⟩, _⟩, _⟩ := h
+  obtain ⟨⟨⟨⟨⟨⟨⟨⟨⟨⟨⟨⟨⟨⟨⟨⟨⟨⟨⟨⟨⟨⟨⟨⟨⟨⟨⟨⟨⟨a1, a2⟩, a3⟩, a4⟩, a5⟩, a6⟩, a7⟩, a8⟩, a9⟩, a10⟩, b1⟩, b2⟩, b3⟩, b4⟩, b5⟩, c1⟩, c2⟩, d1⟩, d2⟩, d3⟩, d4⟩, d5⟩, d6⟩, _⟩, _⟩, _⟩, _⟩, _⟩, _⟩, _⟩ := h
   exact ⟨⟨a1, a2, a3, a4, a5, a6, a7, a8, a9, a10⟩, ⟨b1, b2, b3, b4, b5⟩, ⟨c1, c2⟩, ⟨d1, d2, d3, d4, d5, d6⟩⟩
 
 theorem reset_sim {F : RFacts} (ok : F.ok = true) (rq : Req) {c0 c0' : Ctx} (h : c0.Clean) (h' : c0'.Clean) :
